@@ -46,6 +46,8 @@ CLAIMED["C12"] = ("E-SEQ", "two-world (non-interference) explicit-state BFS: eve
     "Every history up to the bound in which a secret channel / an invisible user comes into being; in every state where the hiding condition holds the observer's LIST/NAMES/WHO/WHOIS queries (names, comma lists, wildcard masks, no argument) are answered identically in the world with and the world without the hidden part; messages into the secret channel reach nobody.", NOTE)
 CLAIMED["C13"] = ("E-FUN", EFUN + " (RFC tokenizer, arity table); segmentation/limit sweep of the codec; relay round trip in real worlds", "DESIGN.md §4 C13",
     "All strings up to length L over {A,a,space,:,comma,#} through the real parser vs a reference tokenizer; 41 verbs x letter case x arity through Command::from_message and on the wire (461/421); a 3-line payload at every 1- and 2-cut segmentation, lines around the 2000-byte limit, blank lines; every relayed verb with every short text over {a,space,:} re-parsed at the receiver.", NOTE)
+CLAIMED["C17"] = ("E-SEQ", ESEQ + " with a virtual (paused tokio) clock driving the server's real timer tasks; 9 timeout configurations", "DESIGN.md §4 C17",
+    "For every (ping_timeout, pong_timeout) in {1,2,3}^2 every client response pattern up to the horizon (per virtual second: silence, PONG right/wrong token, PING tok, other traffic): server PINGs on schedule, a client without an unanswered PING is never dropped, a silent one is sent ERROR and dropped within pong_timeout (+1 s) of the first unanswered PING and not before, and leaves no trace.", NOTE)
 PENDING = {}
 
 def main():
